@@ -53,7 +53,8 @@ def shape_blog(cfg):
             id=sa.Column(sa.Integer, primary_key=True, autoincrement=False),
             a=sa.Column(sa.Integer),
             b=(sa.Column(sa.Integer, default=7) if cfg.get('defaults') else sa.Column(sa.Integer)),
-            x=sa.Column(sa.Integer),
+            # alias_x: the excluded column is mapped under an attribute name that differs from its column name
+            x=(sa.Column('x_col', sa.Integer) if cfg.get('alias_x') else sa.Column(sa.Integer)),
             **vopts(art_extra)))
         Tag = type('Tag', (Base,), dict(
             __tablename__='tag',
@@ -93,11 +94,20 @@ def shape_comp(cfg):
 
     def build(env, Base, opts):
         v = {'__versioned__': dict(opts)} if opts is not None else {}
-        Pair = type('Pair', (Base,), dict(
-            __tablename__='pair',
-            id1=sa.Column(sa.Integer, primary_key=True, autoincrement=False),
-            id2=sa.Column(sa.Integer, primary_key=True, autoincrement=False),
-            a=sa.Column(sa.Integer), b=sa.Column(sa.Integer), **v))
+        if cfg.get('pkc'):
+            # the PRIMARY KEY constraint lists the key columns in another order than they are declared
+            Pair = type('Pair', (Base,), dict(
+                __tablename__='pair',
+                id1=sa.Column(sa.Integer, autoincrement=False),
+                id2=sa.Column(sa.Integer, autoincrement=False),
+                a=sa.Column(sa.Integer), b=sa.Column(sa.Integer),
+                __table_args__=(sa.PrimaryKeyConstraint('id2', 'id1'),), **v))
+        else:
+            Pair = type('Pair', (Base,), dict(
+                __tablename__='pair',
+                id1=sa.Column(sa.Integer, primary_key=True, autoincrement=False),
+                id2=sa.Column(sa.Integer, primary_key=True, autoincrement=False),
+                a=sa.Column(sa.Integer), b=sa.Column(sa.Integer), **v))
         v2 = {'__versioned__': dict(opts)} if opts is not None else {}
         if opts is not None and cfg.get('class_names'):
             v2['__versioned__'].update({'end_transaction_column_name': 'valid_to', 'transaction_column_name': 'txid'})
@@ -243,6 +253,14 @@ def plugins_for(cfg):
             def transaction_args(self, uow, session):
                 return {'remote_addr': TXARG}
         ps.append(ArgsPlugin())
+    if cfg.get('origin'):
+        # ... only for sessions that say where they come from (request sessions vs background sessions)
+        from sqlalchemy_continuum.plugins.base import Plugin
+
+        class OriginPlugin(Plugin):
+            def transaction_args(self, uow, session):
+                return {'remote_addr': session.info['origin']} if session.info.get('origin') else {}
+        ps.append(OriginPlugin())
     return ps
 
 
@@ -900,6 +918,7 @@ def run_program(env, cfg, prog, record=True, plain=False, fault=None, emulate_ac
     outcomes = []
     kept_activities = []
     kept_tx = {}
+    bystander = dict(engine=None, session=None, sps=[])
     added_tx = set()
     conn_rolled_back = False
     classes = env.classes
@@ -1053,6 +1072,12 @@ def run_program(env, cfg, prog, record=True, plain=False, fault=None, emulate_ac
                         outcomes.append('skip')
                         continue
                     a.notes.append(nt)
+                elif kind == 'rawpartial':
+                    # ['rawpartial', article]: a Core DELETE on the association table that names only ONE of its
+                    # columns (all links of an article): the package cannot identify the rows and leaves the statement
+                    # alone (twin-only histories: what matters is that the application's statement runs)
+                    tbl = env.assoc[0]
+                    s.execute(tbl.delete().where(tbl.c.article_id == sa.bindparam('article_id')), {'article_id': op[1]})
                 elif kind in ('rawlink', 'rawunlink', 'rawlink_inline'):
                     tbl = env.assoc[0]
                     if kind == 'rawlink_inline':
@@ -1186,6 +1211,17 @@ def run_program(env, cfg, prog, record=True, plain=False, fault=None, emulate_ac
                         h_.commit()
                     finally:
                         h_.close()
+                elif kind == 'by':
+                    # ['by', 'begin' | 'rollback' | 'release']: ANOTHER session of the process, on a database of its own,
+                    # opens / rolls back / releases a savepoint; it writes nothing.  The manager is shared.
+                    if bystander['session'] is None:
+                        bystander['engine'] = sa.create_engine('sqlite://')
+                        bystander['session'] = sa.orm.Session(bind=bystander['engine'].connect(), autoflush=False)
+                    if op[1] == 'begin':
+                        bystander['sps'].append(bystander['session'].begin_nested())
+                    elif bystander['sps']:
+                        h_ = bystander['sps'].pop()
+                        (h_.rollback if op[1] == 'rollback' else h_.commit)()
                 elif kind == 'vswitch':
                     # the manager-level switch options['versioning'] (documented as the way to turn versioning off for a
                     # while); the configuration of the Layer-B model is fixed per run, so histories using it are judged on
@@ -1299,6 +1335,20 @@ def run_program(env, cfg, prog, record=True, plain=False, fault=None, emulate_ac
                     if bad:
                         act_problem = 'version row of %s (transaction %s) holds a value in column %s, which the class does not have' % (
                             part['cls'].__name__, row[txc], bad[0])
+        if act_problem is None and rec and env.versioned:
+            # an excluded column has no counterpart in the version table: neither the column nor a modification flag
+            for mi, part in enumerate(rec.parts):
+                if mi not in rec.vtabs:
+                    continue
+                vtb = rec.vtabs[mi][0]
+                for k in rec.colkeys[part['py']]:
+                    col = part_column(part, k)
+                    if col is None or not effective_excluded(env, part['cls'], k):
+                        continue
+                    for nm_ in (col.name, col.name + '_mod', k, k + '_mod'):
+                        if nm_ in vtb.c:
+                            act_problem = 'excluded column %s.%s has a counterpart %s in the version table' % (
+                                part['cls'].__name__, k, nm_)
         if act_problem is None and rec and env.versioned and cfg.get('txargs'):
             # every transaction record carries the attribute the plugin supplied
             txt = env.manager.transaction_cls.__table__
@@ -1342,6 +1392,13 @@ def run_program(env, cfg, prog, record=True, plain=False, fault=None, emulate_ac
             s.close()
         except Exception:
             pass
+        if bystander['session'] is not None:
+            try:
+                bystander['session'].close()
+                bystander['session'].bind.close()
+                bystander['engine'].dispose()
+            except Exception:
+                pass
 
 
 def cfg_key(cfg):
